@@ -18,6 +18,7 @@ structure StoreSt where
   conc : List (String × String × Int × Int × String) := []
   tamperTotal : Nat := 0
   nonUtf8 : Bool := false
+  longKey : Bool := false
 
 def setErr (st : StoreSt) (m : String) : StoreSt := if st.err.isSome then st else { st with err := some m }
 
@@ -40,6 +41,7 @@ def storeLine (st : StoreSt) (line : String) : StoreSt :=
     | some want, "ok" => if want = unhex v then st else setErr st s!"Get({shw (unhex k)}) returned other bytes than the latest Set"
     | none, "notexist" => st
     | some _, r => setErr st (if isExpapiMem then s!"expapi over memcache: key {shw (unhex k)} was Set on the application's connection but the maintenance API answers {r}"
+                              else if st.backend.startsWith "expapi" then s!"expapi: GET /debug/httpcache/<key> for the key {shw (unhex k)} (length {(unhex k).length}) answers {r}, the store holds a value under it"
                               else s!"Get({shw (unhex k)}) = {r}, the map holds a value")
     | none, r => setErr st s!"Get({shw (unhex k)}) = {r}, the map holds nothing"
   | ["S", "DEL", k, res] =>
@@ -49,13 +51,15 @@ def storeLine (st : StoreSt) (line : String) : StoreSt :=
     | some _, r => setErr st s!"Delete({shw (unhex k)}) = {r}, the key exists"
     | none, r => setErr st s!"Delete({shw (unhex k)}) = {r}, the key does not exist"
   | ["S", "KEYS", p, res, ks] =>
-    if res != "ok" then setErr st s!"Keys({shw (unhex p)}) failed" else
+    if res != "ok" then setErr st (if st.longKey then s!"Keys({shw (unhex p)}) fails once a 3 KB key has been stored (and still after it was deleted): the listing walks complete path names"
+                                   else s!"Keys({shw (unhex p)}) failed") else
     let got := sortStrsD (splitComma ks)
     let want := sortStrsD (kvKeys st.kv (unhex p))
     if got = want then st
     else if st.nonUtf8 && st.backend.startsWith "expapi" && got.length = want.length then
       setErr st "expapi list endpoint: a key that is not valid UTF-8 is altered by the JSON encoding of the answer"
     else setErr st s!"Keys({shw (unhex p)}) = {got.map shw}, the map has {want.map shw}"
+  | ["S", "NOTE", "longkey"] => { st with longKey := true }
   | ["S", "NOKEYS"] => if st.backend == "expapi-mem" then st else setErr st "key listing not supported by a backend that implements it"
   | ["S", "HELD", "changed", k] => setErr st s!"the bytes returned by an earlier Get({shw (unhex k)}) changed while later operations ran: results are not isolated from the backend's buffers"
   | ["S", "REOPEN"] => st
